@@ -10,7 +10,7 @@ rm -rf "$W"; mkdir -p "$W"
 rsync -a --exclude .git --exclude .work --exclude replays --exclude .cache --exclude seeded /verif/ "$W/verif/"
 git -C /repo worktree add --detach "$W/repo" HEAD >/dev/null 2>&1
 git -C "$W/repo" apply "/verif/seeded/$id/patch.diff" || { echo "$id: patch does not apply"; exit 2; }
-cd "$W/verif"
+cd "$W/verif" || { echo "$id: scratch copy failed"; exit 2; }
 mkdir -p .work replays
 for p in "$@"; do
   t0=$(date +%s)
